@@ -1233,6 +1233,8 @@ func (c *Compat) BitCount(ctx context.Context, key string, bitCount *BitCount) *
 		resp = c.client.Do(ctx, c.client.B().Bitcount().Key(key).Start(bitCount.Start).End(bitCount.End).Byte().Build())
 	case BitCountIndexBit:
 		resp = c.client.Do(ctx, c.client.B().Bitcount().Key(key).Start(bitCount.Start).End(bitCount.End).Bit().Build())
+	default:
+		panic(fmt.Sprintf("invalid unit %s", bitCount.Unit))
 	}
 	return newIntCmd(resp)
 }
